@@ -25,6 +25,13 @@ func verifDistrMetrics() *limitDistributionMetrics {
 	}
 }
 
+// throttle keys of the limiters map harness: long (file paths, "namespace/pod/container"), equal in their
+// first 70 bytes, different afterwards
+const (
+	verifKeyA = "0123456789012345678901234567890123456789012345678901234567890123456789/a"
+	verifKeyB = "0123456789012345678901234567890123456789012345678901234567890123456789/b"
+)
+
 const verifIval = time.Second
 
 var verifBase = time.Unix(1700000000, 0)
@@ -230,7 +237,7 @@ func VerifH_C16_limitersMap() {
 	if vf.Choose("two-processors-start-together", 2) == 1 {
 		done := 0
 		for g := 0; g < 2; g++ {
-			go func() { one("a"); done++ }()
+			go func() { one(verifKeyA); done++ }()
 		}
 		vf.Quiesce(0)
 		vf.Assert(done == 2, "both-processors-returned")
@@ -239,9 +246,9 @@ func VerifH_C16_limitersMap() {
 	bFrom := vf.Choose("key-b-appears-in-round", K+1)
 	for i := 0; i < K; i++ {
 		// both keys stay in use: every 0.6 s, far below the expiration even when the scheduler is late
-		one("a")
+		one(verifKeyA)
 		if i >= bFrom {
-			one("b")
+			one(verifKeyB)
 		}
 		time.Sleep(600 * time.Millisecond)
 	}
